@@ -60,7 +60,19 @@ impl Scenario for SignSc {
         p.set("sk_codec", x.below(8) as i64);
         p.set("wire", x.below(6) as i64);
         p.steps.push(Step::new(class, &[index as i64]));
-        match class {
+        // "<class>-lengths": the same procedure, with (group, scheme, composite-boundary length) enumerated
+        let lengths = class.ends_with("-lengths");
+        match class.trim_end_matches("-lengths") {
+            "grid" if lengths => {}
+            "grid-keys" => {
+                // every limb-pattern key x every key codec; group and scheme rotate
+                let i = index % (crate::env::LIMB_KEYS * 8);
+                p.set("key_class", (crate::env::LIMB_KEY_BASE + i / 8) as i64);
+                p.set("sk_codec", (i % 8) as i64);
+                p.set("g", ((i / 8 + i) % 2) as i64);
+                p.set("scheme", ((i / 16) % 3) as i64);
+                p.set("msg_class", *x.pick(&[1i64, 2, 3, 16, 17]));
+            }
             "grid" => {
                 // enumerate key class x message-length class x scheme x group
                 let cells = 2 * 3 * 6 * LEN_CLASSES.len() as u64;
@@ -88,7 +100,8 @@ impl Scenario for SignSc {
                 }
             }
             "tamper" => {
-                p.faults.push(Step::new("perturb", &[x.below(N_PERTURB) as i64, x.below(1 << 20) as i64]));
+                let mode = if lengths && x.chance(1, 2) { 5 } else { x.below(N_PERTURB) as i64 };
+                p.faults.push(Step::new("perturb", &[mode, x.below(1 << 20) as i64]));
             }
             "bitflip-all" => {
                 p.set("msg_class", *x.pick(&[1i64, 2, 3, 16]));
@@ -114,12 +127,19 @@ impl Scenario for SignSc {
             }
             _ => {}
         }
+        if lengths {
+            let n = crate::env::composite_lens().len() as u64;
+            p.set("g", (index % 2) as i64);
+            p.set("scheme", ((index / 2) % 3) as i64);
+            p.set("msg_class", (crate::env::COMPOSITE_BASE as u64 + (index / 6) % n) as i64);
+            p.set("key_class", x.below(6) as i64);
+        }
         p
     }
     fn run(&self, plan: &Plan, env: &Env, rec: &mut Rec) {
         let lib = env.cur;
-        match plan.class.as_str() {
-            "grid" | "retry-restart" => run_sign_rt(plan, lib, rec),
+        match plan.class.trim_end_matches("-lengths") {
+            "grid" | "grid-keys" | "retry-restart" => run_sign_rt(plan, lib, rec),
             "tamper" => run_tamper(plan, lib, rec),
             "bitflip-all" => run_bitflip_all(plan, lib, rec),
             "relabel" => run_relabel(plan, lib, rec),
